@@ -60,8 +60,8 @@ CLAIMED.update({
 
 CLAIMED.update({
     "C06": dict(
-        text="Deductive proof (Verus) on the real offset-to-line loops of syntax_error / compiler_error / warning (line index = number of newlines before the offset, for every text and every offset including 0 and end of text), on the index expressions used to read the line table, and on the parse-error arm of compile() (file and line come from the line-table entry of the line pest reports; no index panic, also for an empty table).",
-        note="The three places of cpp::process that write to the output are under contract (U-linemap): each pushes exactly as many line-table entries as it writes newlines. Partial: the reader loop of cpp::process (comments, splices, skipped regions) is not under contract (string scanning without library specifications). Byte offsets equal character offsets only for ASCII text (A-ascii). pest line numbers are 1-based (A-pest-lines).",
+        text="Deductive proof (Verus) on the real offset-to-line loops of syntax_error / compiler_error / warning (line index = number of newlines before the character that starts at the byte offset, for every UTF-8 text and every offset including 0 and end of text), on the index expressions used to read the line table, and on the parse-error arm of compile() (file and line come from the line-table entry of the line pest reports; no index panic, also for an empty table).",
+        note="The three places of cpp::process that write to the output are under contract (U-linemap): each pushes exactly as many line-table entries as it writes newlines. Partial: the reader loop of cpp::process (comments, splices, skipped regions) is not under contract (string scanning without library specifications). The offset-to-line loops are verified for arbitrary UTF-8 text (offsets are byte offsets; vstd's specification of char::len_utf8), no ASCII assumption is left. pest line numbers are 1-based (A-pest-lines).",
         technique="contract-based deductive verification (Verus loop invariant on the code blocks extracted mechanically from /repo)",
         design="DESIGN.md section 5, C06"),
 })
